@@ -84,6 +84,27 @@ Theorem C02_chunked_message_trailers : forall (C : callees) (k : kind) line info
 Proof. exact chunked_message_trailers. Qed.
 Print Assumptions C02_chunked_message_trailers.
 
+(* THE SEQUENCE STATEMENT.  [wmsg] (Proofs/ParserChunked.v) is one message as a sender writes it: start line, header
+   block, and a body framed by Content-Length ([WLen body]), or as ANY list of non-empty chunks with extensions and a
+   last-chunk extension ([WChunked cs e0]), or the same followed by a trailer section whose fields were all announced
+   ([WTrailers ..]); [w_ok] is the conjunction of the hypotheses of the single-message
+   theorems above (syntactic validity + the callees accept it); [w_wire] its octets, [w_delivered] the message the
+   application must receive.  For ANY list of valid messages the concatenation of their octets is delivered as exactly
+   those messages in order, with no error, and the machine is idle with an empty buffer afterwards. *)
+Theorem C02_pipeline : forall (C : callees) (k : kind) (ms : list (wmsg)),
+  Forall (w_ok C k) ms ->
+  parse reference C k init (concat_bytes (map w_wire ms)) = (init, map w_delivered ms, None).
+Proof. exact pipeline_delivered. Qed.
+Print Assumptions C02_pipeline.
+
+(* ... and whatever follows them (an incomplete message, garbage) is handled after they have been delivered *)
+Theorem C02_pipeline_then : forall (C : callees) (k : kind) (ms : list (wmsg)) (tail : bytes),
+  Forall (w_ok C k) ms ->
+  parse reference C k init (concat_bytes (map w_wire ms) ++ tail) =
+  let '(s2, m2, e) := parse reference C k init tail in (s2, map w_delivered ms ++ m2, e).
+Proof. exact pipeline_then. Qed.
+Print Assumptions C02_pipeline_then.
+
 (* The one configuration in which the client machine must NOT read a body: the message whose framing fields it strips
    ([c_connect]: a successful response to its CONNECT request, RFC 7231 4.3.6) ends with its header section whatever
    Transfer-Encoding / Content-Length it carries; it is delivered with an empty body, without those fields, with
@@ -116,6 +137,27 @@ Definition T : tables := {|
 (* ... and a chunk list with extensions is well-formed *)
 Example C02_chunks_example : forallb chunk_ok [(X "616263", X "3b783d79"); (X "64", [])] = true /\ ext_ok (X "3b6c617374") = true.
 Proof. vm_compute. auto. Qed.
+
+(* non-vacuity of [w_ok]: a Content-Length message and a chunked message with extensions, both valid for the table [T2] *)
+Definition T2 : tables := {|
+  t_start := [(X "485454502f312e3120323030204f4b", SlOk {| p11 := true; nobody := false |})];
+  t_hdrs := [((true, [(X "436f6e74656e742d4c656e677468", X "33"); (X "582d41", X "62")]), HOk);
+             ((true, [(X "5472616e736665722d456e636f64696e67", X "6368756e6b6564")]), HOk)];
+  t_decode := []; t_2047 := []; t_trailer := []; t_connect := [] |}.
+Definition M1 : wmsg := {| w_line := X "485454502f312e3120323030204f4b"; w_info := {| p11 := true; nobody := false |};
+  w_block := X "436f6e74656e742d4c656e6774683a20330d0a782d613a2062";
+  w_hdrs := [(X "436f6e74656e742d4c656e677468", X "33"); (X "582d41", X "62")]; w_fr := WLen (X "616263") |}.
+Definition M2 : wmsg := {| w_line := X "485454502f312e3120323030204f4b"; w_info := {| p11 := true; nobody := false |};
+  w_block := X "5472616e736665722d456e636f64696e673a206368756e6b6564";
+  w_hdrs := [(X "5472616e736665722d456e636f64696e67", X "6368756e6b6564")];
+  w_fr := WChunked [(X "616263", X "3b783d79"); (X "64", [])] (X "3b6c617374") |}.
+Example C02_pipeline_example : w_ok (callees_of T2) Client M1 /\ w_ok (callees_of T2) Client M2 /\
+  parse reference (callees_of T2) Client init (concat_bytes (map w_wire [M1; M2; M1])) = (init, map w_delivered [M1; M2; M1], None).
+Proof.
+  assert (H1 : w_ok (callees_of T2) Client M1) by (unfold w_ok; vm_compute; repeat split; try reflexivity; discriminate).
+  assert (H2 : w_ok (callees_of T2) Client M2) by (unfold w_ok; vm_compute; repeat split; try reflexivity; discriminate).
+  split; [exact H1 | split; [exact H2 | apply C02_pipeline; apply Forall_cons; [exact H1 | apply Forall_cons; [exact H2 | apply Forall_cons; [exact H1 | apply Forall_nil]]]]].
+Qed.
 
 Example C02_example :
   let block := X "436f6e74656e742d4c656e6774683a20330d0a782d613a2062" in
